@@ -242,7 +242,7 @@ pub fn property() -> Property {
         subchecks: vec![
             SubCheck {
                 name: "shuffle_histories",
-                driver: Driver::Generated { gen: gen_case, genome_len: 512, quick: 120_000, thorough: 2_500_000 },
+                driver: Driver::Generated { gen: gen_case, genome_len: 512, quick: 360_000, thorough: 2_880_000 },
                 check: check_case,
                 configs: Configs::ReleaseOnly,
                 required: &["threefold_reached", "pop_seen", "class_mandatory", "class_claimable", "class_none", "lookalike_position"],
@@ -251,7 +251,7 @@ pub fn property() -> Property {
             },
             SubCheck {
                 name: "directed_repetitions",
-                driver: Driver::Generated { gen: gen_shuffle_case, genome_len: 256, quick: 120_000, thorough: 2_500_000 },
+                driver: Driver::Generated { gen: gen_shuffle_case, genome_len: 256, quick: 360_000, thorough: 2_880_000 },
                 check: check_case,
                 configs: Configs::ReleaseOnly,
                 required: &["threefold_reached", "fivefold_reached", "threefold_with_pop", "auto_outcome_stored", "auto_outcome_filtered", "class_forced"],
